@@ -127,14 +127,23 @@ pub fn rate_class(rate: u32) -> &'static str {
     else { "streaminfo" }
 }
 
+/// Boundary rates of the header codings (kHz: rate/1000 < 255; 10 Hz: rate/10 < 65535; Hz: rate < 65535).
+pub const RATES_EDGE: &[u32] = &[253000, 254000, 255000, 256000, 254900, 254990, 65533, 65534, 65535, 65536,
+    655330, 655340, 655350, 655360, 655370, 705600, 768000, 1048570, 1048575, 37800, 18900, 11100, 64100, 100, 10, 1100];
+
 pub fn pick_rate(rng: &mut Rng) -> u32 {
-    match rng.below(10) {
+    match rng.below(14) {
         0..=3 => *rng.pick(RATES_COMMON),
         4 => *rng.pick(RATES_KHZ),
         5 => *rng.pick(RATES_HZ),
         6 => *rng.pick(RATES_DHZ),
         7 => *rng.pick(RATES_SI),
         8 => rng.below(1 << 20) as u32,
+        9 => *rng.pick(RATES_EDGE),
+        // structured: a random multiple of 10, 100 or 1000 anywhere in the legal range
+        10 => ((rng.below(104857) as u32) * 10) % (1 << 20),
+        11 => ((rng.below(10485) as u32) * 100) % (1 << 20),
+        12 => ((rng.below(2550) as u32) * 100) % (1 << 20),
         _ => (rng.below(655) as u32) * 1000 % (1 << 20),
     }
 }
